@@ -139,6 +139,81 @@ proof fn lemma_push_contains(s: Seq<u8>, r: u8)
     }
 }
 
+// order-preserving filter "entries below p" (what Vec::retain(|&r| r < p) leaves)
+spec fn keep_lt(s: Seq<u8>, p: u8) -> Seq<u8>
+    decreases s.len(),
+{
+    if s.len() == 0 {
+        s
+    } else if s.last() < p {
+        keep_lt(s.drop_last(), p).push(s.last())
+    } else {
+        keep_lt(s.drop_last(), p)
+    }
+}
+
+// TRUSTED wrapper for rule R10; its body is the std call it replaces (Vec::retain keeps exactly the elements
+// satisfying the predicate, in order).  Cross-checked by the bounded Kani harnesses restore_f*_s*.
+#[verifier::external_body]
+fn vf_retain_lt(v: &mut Vec<u8>, p: u8)
+    ensures final(v)@ == keep_lt(old(v)@, p),
+{ v.retain(|&r| r < p) }
+
+proof fn lemma_keep_lt_below(s: Seq<u8>, p: u8, i: int)
+    requires 0 <= i < keep_lt(s, p).len(),
+    ensures keep_lt(s, p)[i] < p,
+    decreases s.len(),
+{
+    if s.len() > 0 {
+        let kd = keep_lt(s.drop_last(), p);
+        if s.last() < p {
+            if i < kd.len() { lemma_keep_lt_below(s.drop_last(), p, i); }
+        } else {
+            lemma_keep_lt_below(s.drop_last(), p, i);
+        }
+    }
+}
+
+proof fn lemma_keep_lt(s: Seq<u8>, p: u8)
+    ensures
+        forall|x: u8| keep_lt(s, p).contains(x) <==> (s.contains(x) && x < p),
+        forall|i: int| 0 <= i < keep_lt(s, p).len() ==> #[trigger] keep_lt(s, p)[i] < p,
+        s.no_duplicates() ==> keep_lt(s, p).no_duplicates(),
+    decreases s.len(),
+{
+    assert forall|i: int| 0 <= i < keep_lt(s, p).len() implies #[trigger] keep_lt(s, p)[i] < p by {
+        lemma_keep_lt_below(s, p, i);
+    }
+    if s.len() > 0 {
+        let d = s.drop_last();
+        let l = s.last();
+        lemma_keep_lt(d, p);
+        let k = keep_lt(s, p);
+        let kd = keep_lt(d, p);
+        assert forall|x: u8| k.contains(x) <==> (s.contains(x) && x < p) by {
+            if l < p { lemma_push_contains(kd, l); }
+            if s.contains(x) {
+                let i = choose|i: int| 0 <= i < s.len() && s[i] == x;
+                if i < d.len() { assert(d[i] == x); }
+            }
+            if d.contains(x) {
+                let i = choose|i: int| 0 <= i < d.len() && d[i] == x;
+                assert(s[i] == x);
+            }
+        }
+        if s.no_duplicates() {
+            assert(d.no_duplicates());
+            assert(!d.contains(l)) by {
+                if d.contains(l) {
+                    let i = choose|i: int| 0 <= i < d.len() && d[i] == l;
+                    assert(s[i] == s[s.len() - 1]);
+                }
+            }
+            if l < p { lemma_push_contains(kd, l); }
+        }
+    }
+}
+
 spec fn range_set(s: int, n: int) -> ISet<u8> {
     ISet::new(|r: u8| s <= r < s + n)
 }
@@ -176,6 +251,54 @@ proof fn lemma_lookup_push_any(sm: Seq<SourceMapEntry>)
 {
     assert forall|e: SourceMapEntry, i: int| #[trigger] lookup(sm.push(e), i) == (if e.bytecode_offset <= i { Some(e.span) } else { lookup(sm, i) }) by {
         lemma_lookup_push(sm, e, i);
+    }
+}
+
+spec fn sm_sorted(sm: Seq<SourceMapEntry>) -> bool {
+    forall|i: int, j: int| 0 <= i < j < sm.len() ==> sm[i].bytecode_offset < sm[j].bytecode_offset
+}
+
+// TRUSTED wrapper for rule R9; its body is the std call it replaces.  Contract = std's documented contract of
+// binary_search_by_key on a slice sorted by the key (cross-checked by the bounded Kani harness srcmap_lookup_*).
+#[verifier::external_body]
+fn vf_bsearch_offset(v: &Vec<SourceMapEntry>, key: usize) -> (r: Result<usize, usize>)
+    ensures
+        sm_sorted(v@) ==> match r {
+            Ok(i) => i < v@.len() && v@[i as int].bytecode_offset == key,
+            Err(i) => i <= v@.len()
+                && (forall|j: int| 0 <= j < i ==> (#[trigger] v@[j]).bytecode_offset < key)
+                && (forall|j: int| i <= j < v@.len() ==> (#[trigger] v@[j]).bytecode_offset > key),
+        },
+{ v.binary_search_by_key(&key, |e| e.bytecode_offset) }
+
+// lookup (defined from the end) == the entry at the greatest index whose offset is <= q
+proof fn lemma_lookup_characterisation(sm: Seq<SourceMapEntry>, q: int, k: int)
+    requires
+        sm_sorted(sm),
+        0 <= k <= sm.len(),
+        forall|j: int| 0 <= j < k ==> (#[trigger] sm[j]).bytecode_offset <= q,
+        forall|j: int| k <= j < sm.len() ==> (#[trigger] sm[j]).bytecode_offset > q,
+    ensures
+        k == 0 ==> lookup(sm, q) is None,
+        k > 0 ==> lookup(sm, q) == Some(sm[k - 1].span),
+    decreases sm.len(),
+{
+    if sm.len() > 0 {
+        if sm.last().bytecode_offset <= q {
+            assert(k == sm.len()) by { if k < sm.len() { assert(sm[sm.len() - 1].bytecode_offset > q); } }
+        } else {
+            let d = sm.drop_last();
+            assert(k < sm.len()) by { if k == sm.len() { assert(sm[sm.len() - 1].bytecode_offset <= q); } }
+            assert(sm_sorted(d)) by {
+                assert forall|i: int, j: int| 0 <= i < j < d.len() implies d[i].bytecode_offset < d[j].bytecode_offset by {
+                    assert(d[i] == sm[i] && d[j] == sm[j]);
+                }
+            }
+            assert forall|j: int| 0 <= j < k implies (#[trigger] d[j]).bytecode_offset <= q by { assert(d[j] == sm[j]); }
+            assert forall|j: int| k <= j < d.len() implies (#[trigger] d[j]).bytecode_offset > q by { assert(d[j] == sm[j]); }
+            lemma_lookup_characterisation(d, q, k);
+            if k > 0 { assert(d[k - 1] == sm[k - 1]); }
+        }
     }
 }
 
